@@ -30,6 +30,21 @@ claim("C10", "proof", "exact switch-structure evaluation of from_ei_data over th
       "Trusted: slice equality/indexing in core. 'AnyEndian behaves as the fixed spec afterwards' rests on C04 (no overridden read method, is_little agrees).",
       "DESIGN.md 5/C10")
 
+claim("C08", "proof", "panic-site census over elf_stream + typestate (load-before-get) rule + allocation-guard dominance + read-site provenance",
+      "(a) every panic site of the stream parser is discharged, the single `expect` by a typestate argument checked at all 8 get_bytes call sites "
+      "(incl. data-dependent branches via phi selection); (b) every sized allocation is dominated by the `end <= stream_len` guard or consumes an "
+      "already length-checked buffer; (c) Read/Seek are only touched in CachingReader::{new,load_bytes} and every read site's range is either one of "
+      "the five opening reads or exactly one header's designated range.",
+      "Trusted: as C01; std collection methods listed in rules/c08.py allocate as documented; an allocation <= stream length succeeds. "
+      "The numeric constant of the bound is not computed (each sized allocation <= stream length; collected tables <= 64/40 x buffer).",
+      "DESIGN.md 5/C08")
+claim("C17", "proof", "error-discipline rule over outcomes (every I/O Result tested on all paths, Err outcomes return that error), dominance ordering of cache insert, writer census of long-lived state",
+      "All 3 Read/Seek call sites and all 29 call sites of I/O-performing in-crate functions propagate the error on every path (outcome expansion per path condition); "
+      "the cache insert is dominated by the success edges of seek and read_exact and inserts the buffer that was read; every read is preceded by an absolute seek, "
+      "so a failed call leaves no state that changes a later answer; ehdr/shdrs/phdrs/stream_len are written only while opening.",
+      "Trusted: std's read_exact semantics (Err on early EOF, retries Interrupted). Panic-freedom on error paths is C08(a).",
+      "DESIGN.md 5/C17")
+
 for pid in ["C01", "C02", "C03", "C04", "C05", "C06", "C07", "C08", "C09", "C10", "C11", "C12", "C13", "C14", "C15", "C16", "C17", "C18", "C20"]:
     if pid not in CLAIMS:
         na(pid, "static rule designed (DESIGN.md section 5) but its checker is not built yet in this revision; not claimed until it runs silent on the tree and fires on control mutants")
